@@ -1226,10 +1226,19 @@ func (ex *Exec) evalModifies(env *SpecEnv, n *Node) []modItem {
 	}
 	switch n.Kind {
 	case "field":
-		// T.f (type-qualified: whole component) or x.f / x.*
-		if id := n.Args[0]; id.Kind == "ident" {
+		// T.f / pkg.T.f (type-qualified: whole component) or x.f / x.*
+		id := n.Args[0]
+		if id.Kind == "field" && id.Args[0].Kind == "ident" {
+			if _, isVar := env.lookupIdent(id.Args[0].Name); !isVar && env.findImport(id.Args[0].Name) != nil {
+				id = &Node{Kind: "ident", Name: id.Args[0].Name + "." + id.Name}
+			}
+		}
+		if id.Kind == "ident" {
 			if _, isVar := env.lookupIdent(id.Name); !isVar {
 				t := env.resolveType(id.Name)
+				if t == nil {
+					sfail("modifies: unknown type %s", id.Name)
+				}
 				st, ok := t.Underlying().(*types.Struct)
 				if !ok {
 					sfail("modifies %s.%s: not a struct type", id.Name, n.Name)
